@@ -79,6 +79,10 @@ CHECKS["C16"] = dict(level="fault_enumeration", engine="damage sweep (verifier s
    technique="runtime monitor over altered copies of generated databases: one bit or byte of one table / commit-log / value-log file changed (or a table cut), the copy opened by the real code in a verifier subprocess, all keys read, both scan directions, flush + compaction, read again; every successful read compared with the written data",
    text="Thorough tier: every byte position of every table, commit-log and value-log file of the generated databases gets a byte flip and a bit flip, and every table file is cut at every offset (a superset of its block boundaries). Quick tier: stratified sample (file heads and tails + 260 seeded positions per file, small files exhaustively, truncation every 11th offset). A read that succeeds must return the written data; commit-log alterations are judged with the repairing recovery mode's prefix semantics (C12). Panics, dead verifier processes and wrong data are violations; a silent verifier is killed and counted inconclusive.",
    note="Trusted: verifier subprocess protocol. Manifest files are not altered (not named by the property). The value log is read with VLogChecksumLevel::Full.")
+CHECKS["C15"] = dict(level="fault_enumeration", engine="E2 + fault injection (LD_PRELOAD layer)", ref="DESIGN.md 3/C15",
+   technique="runtime monitor under injected I/O faults: the n-th write / fsync / rename on a file class (commit log, table, manifest, value log) fails with EIO / ENOSPC or is cut short, once or from then on; each faulty run is observed live (fresh reader after every failed commit, marker keys at the end of the run) and through the crash images of its tail opened by the real code",
+   text="Operation counts per file class come from a fault-free run of each generated workload; fault positions are then enumerated (every ordinal for classes with up to 12 operations, first / last / seeded ordinals otherwise; every class x once/sticky represented). Checked: a failed commit is invisible to a reader begun right afterwards and at the end of the run; no panic; in every crash image from the fault on, failed transactions are absent, every transaction acknowledged before the crash point is present, the state is a commit prefix and the store opens and reads. One open known finding (a commit that fails at the commit log stays in the log and is replayed) is reported as KNOWN-FINDING by a directed fault scenario and exactly that pattern is masked in the campaign.",
+   note="Trusted: LD_PRELOAD fault injector and recorder, image builder. After a background failure the worker does not flush again (as the store's own tasks), and it never runs two flushes at once.")
 order = ["C01","C02","C03","C04","C05","C06","C07","C08","C09","C10","C11","C12","C13","C14","C15","C16","C17","C18","C19"]
 checks=[]
 for pid in order:
